@@ -46,7 +46,7 @@ from vlib.result import R
 ID = 'C02'
 LEVEL = 'exploration'
 RULE = ('streams of 1-8 hand-built H4 packets (5 types; bodies 0,1,2,3,127,128,254,255 and for '
-        '16-bit lengths 256,257,511,512,4096,65535 [ISO: 16383]; hostile body bytes) x chunkings '
+        '16-bit lengths 256,257,511,512,4096,16383,16384,32768,49152,65534,65535; hostile body bytes) x chunkings '
         '(every 2-chunk split for streams <= 3000 B else all offsets within 8 B of a packet '
         'start/end, 1-byte chunks for streams <= 1500 B, per-packet / header-aligned cuts, 3-6 '
         'random cut sets incl. empty chunks, whole stream). A (stream, chunking family) is '
@@ -56,7 +56,7 @@ RULE = ('streams of 1-8 hand-built H4 packets (5 types; bodies 0,1,2,3,127,128,2
         '<= 3 chunks (3-packet sequences in quick: <= 2 chunks). Server cases: transport x stream pair x every '
         'cut position x cut style; non-trivial when the cut is inside a packet.')
 ASSUMPTIONS = [
-    'ISO data load length is 14 bits (top two bits RFU = 0), so the largest well-formed ISO body is 16383',
+    'the 16-bit length field of an ISO data packet is framed as 16 bits by every framer (its RFU top bits belong to the ISO layer)',
     'PacketReader is given what its signature names, an io.BufferedReader (blocking read(n) returns n '
     'bytes unless EOF); short reads happen at the raw layer underneath, with buffer sizes 1..8192',
     'bytes that share a chunk with an invalid type byte and follow it may be dropped or framed, but not '
@@ -154,7 +154,7 @@ def gen_stream(rng, nmax=8, same_type=None, allow_huge=False, small=False):
         if small:
             bl = rng.choice([0, 0, 1, 2, 3, 5])
         elif allow_huge and t in H.HUGE and rng.random() < 0.5:
-            bl = H.HUGE[t]
+            bl = rng.choice(H.HUGE_CHOICES[t])
         else:
             bl = rng.choice(H.BOUNDARY_LENGTHS[width] + (0, 0, 1, rng.randint(0, 40)))
         pk.append(H.make_packet(rng, t, bl))
@@ -640,7 +640,7 @@ async def big_case(case, r: R):
         s = gen_stream(rng, nmax=4, allow_huge=True)
         if not any(d[1] > 4096 for d in s.desc):
             t = rng.choice([H.ACL, H.ISO])
-            s = Stream(s.packets[:2] + [H.make_packet(rng, t, H.HUGE[t])] + s.packets[2:3])
+            s = Stream(s.packets[:2] + [H.make_packet(rng, t, rng.choice(H.HUGE_CHOICES[t]))] + s.packets[2:3])
         r.ev('huge_streams')
         await frame_stream(r, rng, s, nrandom=4)
         su = gen_stream(rng, nmax=3, same_type=H.ACL)
